@@ -171,6 +171,16 @@ func (o optimizer[V]) Optimize(ast parser2.AST) parser2.AST {
 	if mc, ok := ast.(*parser2.MethodCall); ok {
 		if con, ok := mc.Value.(*parser2.Const[V]); ok {
 			if c, ok := o.allConst(mc.Args); ok {
+				// The name could also be the name of a map field which stores a closure.
+				// The generated code gives such a field precedence over a method of the
+				// same name, so this is not a method call that can be evaluated here.
+				if o.g.mapHandler != nil && o.g.mapHandler.IsMap(con.Value) {
+					if va, err := o.g.mapHandler.AccessMap(con.Value, mc.Name); err == nil {
+						if _, isFunc := o.g.ExtractFunction(va); isFunc {
+							return ast
+						}
+					}
+				}
 				if o.g.methodHandler != nil {
 					fu, err := o.g.methodHandler.GetMethod(con.Value, mc.Name)
 					if err != nil {
